@@ -14,12 +14,13 @@ def sh(cmd, cwd=None, timeout=1800):
 meta = json.load(open(seed + '/meta.json'))
 prop = meta['property']
 head = subprocess.check_output(['git', '-C', '/repo', 'rev-parse', 'HEAD'], text=True).strip()
-sh(f'git -C {MUT} checkout -q --detach {head}; git -C {MUT} checkout -q -- .; git -C {MUT} clean -fdq')
+sh(f'git -C {MUT} reset -q --hard; git -C {MUT} checkout -q --detach {head}; git -C {MUT} reset -q --hard; git -C {MUT} clean -fdq')
 res = {'seed': os.path.basename(seed), 'property': prop, 'repo_head': head[:7]}
 rc, out = sh(f'git -C {MUT} apply --check {seed}/patch.diff')
 if rc != 0:
     rc3, out3 = sh(f'git -C {MUT} apply --3way {seed}/patch.diff')
     if rc3 != 0:
+        sh(f'git -C {MUT} reset -q --hard; git -C {MUT} clean -fdq')
         res['error'] = 'patch does not apply: ' + out[-300:]
         print(json.dumps(res, indent=1)); sys.exit(2)
     sh(f'git -C {MUT} reset -q')
@@ -78,11 +79,11 @@ for p in props:
     caught[p] = {'exit': rc, 'violations': [v[:300] for v in viol[:6]]}
 res['checks'] = caught
 res['caught_by'] = [p for p, c in caught.items() if c['exit'] != 0]
-sh(f'git -C {MUT} checkout -q -- .; git -C {MUT} clean -fdq')
+sh(f'git -C {MUT} reset -q --hard; git -C {MUT} clean -fdq')
 rc, out = run_demo()
 res['demo_passes_without_change'] = rc == 0
 if rc != 0: res['demo_tail_without'] = out[-400:]
-sh(f'git -C {MUT} checkout -q -- .; git -C {MUT} clean -fdq')
+sh(f'git -C {MUT} reset -q --hard; git -C {MUT} clean -fdq')
 res['confirmed'] = bool(res['builds'] and res['demo_fails_with_change'] and res['demo_passes_without_change'] and res['existing_tests_pass'])
 print(json.dumps({k: v for k, v in res.items() if k not in ('demo_tail_with',)}, indent=1))
 if keep and res['confirmed']:
